@@ -63,10 +63,29 @@ func NewDB(conn *sql.DB, schema *Schema) *DB {
 		Many: func(ctx context.Context, items []interface{}) ([]interface{}, error) {
 			table := items[0].(*BaseSelectQuery).Table
 
-			// First, build the SQL query.
+			// First, build the SQL query. Filter values go through the column's
+			// Valuer, exactly as they do for a query that runs on its own, so
+			// that every Go representation of a column value reaches the
+			// database as the same argument.
 			filters := make([]Filter, 0, len(items))
+			testers := make([]Tester, 0, len(items))
 			for _, item := range items {
-				filters = append(filters, item.(*BaseSelectQuery).Filter)
+				query := item.(*BaseSelectQuery)
+				where, err := makeWhere(table, query.Filter)
+				if err != nil {
+					return nil, err
+				}
+				filter := make(Filter, len(where.Columns))
+				for i, column := range where.Columns {
+					filter[column] = where.Values[i]
+				}
+				filters = append(filters, filter)
+
+				tester, err := db.Schema.MakeTester(table.Name, query.Filter)
+				if err != nil {
+					return nil, err
+				}
+				testers = append(testers, tester)
 			}
 			clause, args := makeBatchQuery(filters)
 			query, err := db.Schema.makeSelect(table.Type, nil, &SelectOptions{
@@ -93,22 +112,17 @@ func NewDB(conn *sql.DB, schema *Schema) *DB {
 				return nil, err
 			}
 
-			// Finally, match the returned rows against the queries.
-			matcher := newMatcher()
-			for i, item := range items {
-				query := item.(*BaseSelectQuery)
-				// XXX: This needs more rigor, and a test. For now, call coerceMap on rows
-				// and filters to flatten out all pointers to values, etc., to copy what
-				// the row tester does when matching against the binlog. This way, a filter
-				// specifying age=48 will match a value *age=48.
-				matcher.add(i, coerceMap(query.Filter))
-			}
+			// Finally, hand every returned row to the queries whose filter it
+			// satisfies. The row tester compares column values the way the
+			// database does (after the Valuer), so a filter specifying age=48
+			// as an int matches an int64 or *int64 column holding 48, and a nil
+			// filter value matches NULL.
 			results := make([][]interface{}, len(items))
 			for _, row := range rows {
-				f := coerceMap(table.extractRow(row))
-				for _, idx := range matcher.match(f) {
-					i := idx.(int)
-					results[i] = append(results[i], row)
+				for i, tester := range testers {
+					if tester.Test(row) {
+						results[i] = append(results[i], row)
+					}
 				}
 			}
 
